@@ -29,7 +29,7 @@ MUTANTS = [
     ("C16", "duplicates_kept", S, "                if idx in self.phosphosites:", "                if False:"),
     ("C16", "upper_bound_off_by_one", S, "            if idx >= len(self.seq) or idx < 0:", "            if idx >= len(self.seq) - 1 or idx < 0:"),
     ("C16", "phosphosequence_uses_D", S, '                pseq = pseq + "E"', '                pseq = pseq + "D"'),
-    ("C16", "distribution_sorted_sites", S, "                    newseq[self.phosphosites[indx]] = \"E\"", "                    newseq[sorted(self.phosphosites)[indx]] = \"E\""),
+    ("C16", "distribution_reversed_sites", S, "                    newseq[self.phosphosites[indx]] = \"E\"", "                    newseq[self.phosphosites[len(self.phosphosites) - 1 - indx]] = \"E\""),
     ("C16", "clear_keeps_first_site", S, "        self.phosphosites = []\n\n    #...................................................................................#\n    def calculateKappaDistOfPhosphoStates",
      "        self.phosphosites = self.phosphosites[3:]\n\n    #...................................................................................#\n    def calculateKappaDistOfPhosphoStates"),
     # ---- C17
